@@ -304,6 +304,7 @@ func c11Run(t *testing.T, nspawn int) func(c *vsched.Chooser) vsched.Outcome {
 func TestVerifC11(t *testing.T) {
 	defer vsched.Finish(t)
 	r := vsched.Rep()
+	lfCalibrate()
 	r.Assumption("event granularity: spawner starts, PreStart/PostStop gate releases, death-watch deliveries and one context cancellation are interleaved in every order; the code between two gates (single-flight bookkeeping, tree insertion) runs without harness-controlled preemption")
 	r.Assumption("2-4 concurrent spawners (the statement says 2-8); more spawners of one kind only add single-flight waiters")
 	var scs []vsched.Scenario
